@@ -903,13 +903,13 @@ pub fn plan(property: &str, quick: bool) -> Plan {
             property: "C01".into(),
             rule: "E-SEQ BFS: 3 users + 1 never-joining observer, channels #x/#y, churn alphabet JOIN/PART/KICK/NICK/MODE +v+h+o-o/QUIT/EOF; in every reachable state a battery of PRIVMSG/NOTICE probes (channel, nick, own nick, comma lists with duplicates and missing names, status-prefixed and multi-status targets, 4 text shapes) from every user; oracle: Spec audience - exactly one copy per accepted distinct target at each entitled receiver, exact prefix/target/text, nothing anywhere else".into(),
             assumptions: vec!["a nick target equal to the sender may yield 0 or 1 copy (statement ambiguous)".into(), "deliveries to different receivers commute; queues are drained in slot order".into()],
-            parts: vec![Part::Bfs(Box::new(c01_scn("c01-audience", !quick)), lim(if quick { 4 } else { 6 }, 2_000_000, t(40.0, 900.0)))],
+            parts: vec![Part::Bfs(Box::new(c01_scn("c01-audience", !quick)), lim(if quick { 5 } else { 6 }, 2_000_000, t(40.0, 900.0)))],
         },
         "C10" => Plan {
             property: "C10".into(),
             rule: "E-SEQ BFS: operator alice, sender bob, recipient carol on #c; alphabet MODE #c +-n/m/s, +-b/e masks of the sender, +-v sender, sender JOIN/PART/NICK, recipient AWAY; in every state PRIVMSG and NOTICE probes (channel, present/away/absent nick, absent channel, mixed lists, status target); oracle: deliver iff member-or-open AND not banned-unless-excepted AND (not +m or voice+); refusal => nobody receives, PRIVMSG gets 404; NOTICE produces no line at all on the sender's socket; 301 with the away text".into(),
             assumptions: vec![],
-            parts: vec![Part::Bfs(Box::new(c10_scn("c10-speak", !quick)), lim(if quick { 5 } else { 7 }, 2_000_000, t(40.0, 900.0)))],
+            parts: vec![Part::Bfs(Box::new(c10_scn("c10-speak", !quick)), lim(if quick { 8 } else { 9 }, 2_000_000, t(40.0, 900.0)))],
         },
         "C07" => Plan {
             property: "C07".into(),
@@ -917,7 +917,7 @@ pub fn plan(property: &str, quick: bool) -> Plan {
             assumptions: vec!["error precedence is not demanded".into()],
             parts: vec![
                 Part::Custom("fun:c07-product".into(), Box::new(move || sweep("fun:c07-product", c07_product(!quick), c07_focus(), vec!["471", "473", "474", "475", "405", "JOIN", "353"]))),
-                Part::Bfs(Box::new(c07_scn("c07-evolving", !quick)), lim(if quick { 4 } else { 6 }, 3_000_000, t(30.0, 900.0))),
+                Part::Bfs(Box::new(c07_scn("c07-evolving", !quick)), lim(if quick { 6 } else { 7 }, 3_000_000, t(30.0, 900.0))),
             ],
         },
         "C08" => Plan {
@@ -926,27 +926,27 @@ pub fn plan(property: &str, quick: bool) -> Plan {
             assumptions: vec!["the actor's rank is evaluated when the command is issued".into()],
             parts: vec![
                 Part::Custom("fun:c08-matrix".into(), Box::new(move || sweep("fun:c08-matrix", c08_matrix(!quick), c08_focus(), vec!["482", "442", "441", "MODE"]))),
-                Part::Bfs(Box::new(c08_scn("c08-reach", !quick)), lim(if quick { 2 } else { 3 }, 3_000_000, t(35.0, 900.0))),
+                Part::Bfs(Box::new(c08_scn("c08-reach", !quick)), lim(if quick { 4 } else { 4 }, 3_000_000, t(35.0, 900.0))),
             ],
         },
         "C09" => Plan {
             property: "C09".into(),
             rule: "E-SEQ BFS: founder + 2 members + outsider on #c; founder hands out ranks and +t/+i; everybody issues KICK (single, with comment, self, absent, lists), TOPIC (set, clear, colon text), INVITE (member, absent, unknown, self); outsider JOINs by invitation; probes TOPIC/LIST in every state. Oracle: Spec rank rules; refusal => state unchanged + the right numeric; KICK announced to remaining members and victim; TOPIC announced to all and shown by TOPIC/LIST/JOIN; INVITE reaches exactly the invitee and admits once".into(),
             assumptions: vec!["INVITE on +i by founder/protected lacking the operator flag may go either way".into(), "other victims of one multi-target KICK may or may not see each other's KICK line".into()],
-            parts: vec![Part::Bfs(Box::new(c09_scn("c09-rank", !quick)), lim(if quick { 3 } else { 4 }, 3_000_000, t(40.0, 900.0)))],
+            parts: vec![Part::Bfs(Box::new(c09_scn("c09-rank", !quick)), lim(if quick { 5 } else { 5 }, 3_000_000, t(40.0, 900.0)))],
         },
         "C15" => Plan {
             property: "C15".into(),
             rule: "E-SEQ BFS: user accumulates channels/ranks/modes/away/operator/invitations, then NICK to free, own, taken, unregistered-claimed, released, invalid names, repeatedly; a third client takes released nicks. Oracle: rename-differential on the whole abstract state (every nick-keyed container), NICK line to the user and everyone sharing a channel, refusal => 433/ERROR and identical state; probes under the new nick (MODE, WHOIS, WHOWAS of released nicks, WALLOPS)".into(),
             assumptions: vec!["extra recipients of the NICK announcement are tolerated".into()],
-            parts: vec![Part::Bfs(Box::new(c15_scn("c15-rename", !quick)), lim(if quick { 4 } else { 6 }, 3_000_000, t(40.0, 900.0)))],
+            parts: vec![Part::Bfs(Box::new(c15_scn("c15-rename", !quick)), lim(if quick { 6 } else { 7 }, 3_000_000, t(40.0, 900.0)))],
         },
         "C16" => Plan {
             property: "C16".into(),
             rule: "(a) E-SEQ BFS: 3 users (one server operator) create, configure, empty (PART, KICK, QUIT, EOF, KILL in any combination) and re-create #x; oracle: first JOIN => fresh channel with founder+operator; last member gone by any exit => channel absent (snapshot, LIST, LUSERS count, 403); re-JOIN indistinguishable from a first creation; (b) configuration lattice: every subset of 16 settings of a predefined #p (quick: subsets of size <=2 and >=14) x script start-up/listed joins/other joins/both leave/listed re-joins".into(),
             assumptions: vec![],
             parts: vec![
-                Part::Bfs(Box::new(c16_scn("c16-lifecycle", !quick)), lim(if quick { 5 } else { 6 }, 3_000_000, t(30.0, 900.0))),
+                Part::Bfs(Box::new(c16_scn("c16-lifecycle", !quick)), lim(if quick { 7 } else { 7 }, 3_000_000, t(30.0, 900.0))),
                 Part::Custom("fun:c16-lattice".into(), Box::new(move || c16_lattice(quick))),
             ],
         },
